@@ -30,6 +30,13 @@ var DocPlugins = []string{"logging", "size_limit", "gzip", "headers", "request-i
 
 func genPlugin(rt *rapid.T, types []string) PluginElem {
 	p := PluginElem{Name: pick(rt, "plugin", DocPlugins...)}
+	if rapid.IntRange(0, 9).Draw(rt, "any_builtin") < 3 {
+		p.Name = pick(rt, "builtin", BuiltinPlugins...)
+	}
+	if rapid.IntRange(0, 9).Draw(rt, "bare") < 2 { // entry without a usable config: absent / null / {}
+		p.Bare = pick(rt, "bare_form", BareForms...)
+		return p
+	}
 	switch p.Name {
 	case "size_limit":
 		p.Typ = pick(rt, "typ", types...)
@@ -115,6 +122,19 @@ func GenValid(rt *rapid.T, pluginTypes []string) *Model {
 
 	m.Admin.Mode = mode(rt, "admin", 35, 15, 10, 40)
 	m.Admin.Port = pick(rt, "admin_port", 3, 9091, 8001, 65533)
+	// a disabled listener may carry any port number, also one that is in use (construction: the
+	// sets above are pairwise disjoint, so enabled listeners never collide unless a fault is applied)
+	if m.Metrics.Mode == DisabledV && rapid.IntRange(0, 2).Draw(rt, "metrics_reuses_port") == 0 {
+		m.Metrics.Port = m.Port
+	}
+	if m.Admin.Mode == DisabledV {
+		switch rapid.IntRange(0, 3).Draw(rt, "admin_reuses_port") {
+		case 0:
+			m.Admin.Port = m.Port
+		case 1:
+			m.Admin.Port = m.Metrics.Port
+		}
+	}
 	m.Admin.Token = pick(rt, "token", "", "change-me", "your-secret-token-here")
 	m.Admin.Lists = rapid.IntRange(0, 3).Draw(rt, "lists")
 
@@ -290,6 +310,53 @@ func buildFaults() []Fault {
 		add("admin_api:port-range", fmt.Sprint(p), func(m *Model) { enableAdmin(m); m.Admin.Port = p })
 	}
 	add("metrics:path-required", "empty", func(m *Model) { enableMetrics(m); m.Metrics.Path = "" })
+	// listeners sharing a port: all three pairings, each with the third listener absent / disabled /
+	// disabled with the same number / enabled on a port of its own (the proxy listener always exists)
+	third := []struct {
+		id      string
+		metrics func(m *Model) // state of metrics when it is the third listener
+		admin   func(m *Model) // state of the admin API when it is the third listener
+	}{
+		{"third-absent", func(m *Model) { m.Metrics = Metrics{Mode: Omitted} }, func(m *Model) { m.Admin = Admin{Mode: Omitted} }},
+		{"third-disabled", func(m *Model) { m.Metrics = Metrics{Mode: Disabled} }, func(m *Model) { m.Admin = Admin{Mode: Disabled} }},
+		{"third-disabled-same-number", func(m *Model) { m.Metrics = Metrics{Mode: DisabledV, Port: m.Port, Path: "/metrics"} },
+			func(m *Model) { m.Admin = Admin{Mode: DisabledV, Port: m.Port} }},
+		{"third-enabled", func(m *Model) { m.Metrics = Metrics{Mode: Enabled, Port: 9090, Path: "/metrics"} },
+			func(m *Model) { m.Admin = Admin{Mode: Enabled, Port: 9091, Token: "change-me"} }},
+	}
+	fixPort := func(m *Model) { // a shared number must itself be a legal one, distinct from the sample's 9090/9091
+		if !portOK(m.Port) || m.Port == 9090 || m.Port == 9091 {
+			m.Port = 8080
+		}
+	}
+	for _, th := range third {
+		th := th
+		add("ports:metrics-shares-server-port", th.id, func(m *Model) {
+			fixPort(m)
+			th.admin(m)
+			m.Metrics = Metrics{Mode: Enabled, Port: m.Port, Path: "/metrics"}
+		})
+		add("ports:admin-shares-server-port", th.id, func(m *Model) {
+			fixPort(m)
+			th.metrics(m)
+			m.Admin = Admin{Mode: Enabled, Port: m.Port, Token: "change-me"}
+		})
+	}
+	add("ports:admin-shares-metrics-port", "9090", func(m *Model) {
+		fixPort(m)
+		m.Metrics = Metrics{Mode: Enabled, Port: 9090, Path: "/metrics"}
+		m.Admin = Admin{Mode: Enabled, Port: 9090}
+	})
+	add("ports:admin-shares-metrics-port", "65535", func(m *Model) {
+		fixPort(m)
+		m.Metrics = Metrics{Mode: Enabled, Port: 65535, Path: "/m"}
+		m.Admin = Admin{Mode: Enabled, Port: 65535, Token: "change-me", Lists: 1}
+	})
+	add("ports:metrics-shares-server-port", "all-three-equal", func(m *Model) {
+		fixPort(m)
+		m.Metrics = Metrics{Mode: Enabled, Port: m.Port, Path: "/metrics"}
+		m.Admin = Admin{Mode: Enabled, Port: m.Port}
+	})
 	// logging
 	for _, l := range []string{"verbose", "loud", "warning"} {
 		l := l
@@ -377,6 +444,22 @@ func buildValidVariants() []Variant {
 		m.Rate, m.Breaker, m.Metrics, m.Admin = Rate{Mode: Omitted}, Breaker{Mode: Omitted}, Metrics{Mode: Omitted}, Admin{Mode: Omitted}
 		m.Plugins, m.Logging, m.Strategy, m.Timeouts = Plugins{Mode: Omitted}, Logging{Mode: Omitted}, nil, nil
 	})
+	// equal port numbers are fine when the other listener is disabled
+	add("metrics-disabled-with-server-port", func(m *Model) { m.Metrics = Metrics{Mode: DisabledV, Port: m.Port, Path: "/metrics"} })
+	add("admin-disabled-with-server-port", func(m *Model) { m.Admin = Admin{Mode: DisabledV, Port: m.Port} })
+	add("admin-disabled-with-metrics-port", func(m *Model) { enableMetrics(m); m.Admin = Admin{Mode: DisabledV, Port: m.Metrics.Port} })
+	add("metrics-disabled-with-admin-port", func(m *Model) {
+		enableAdmin(m)
+		m.Metrics = Metrics{Mode: DisabledV, Port: m.Admin.Port, Path: "/metrics"}
+	})
+	add("metrics-disabled-admin-enabled-on-own-port", func(m *Model) {
+		m.Metrics = Metrics{Mode: DisabledV, Port: m.Port, Path: "/metrics"}
+		m.Admin = Admin{Mode: Enabled, Port: 9091}
+	})
+	add("both-ancillaries-disabled-all-numbers-equal", func(m *Model) {
+		m.Metrics = Metrics{Mode: DisabledV, Port: m.Port, Path: "/metrics"}
+		m.Admin = Admin{Mode: DisabledV, Port: m.Port}
+	})
 	for i := 0; i <= 3; i++ {
 		i := i
 		add(fmt.Sprintf("admin-ip-lists=%d", i), func(m *Model) { enableAdmin(m); m.Admin.Lists = i })
@@ -431,13 +514,40 @@ func NonDefaultSections(m *Model) int {
 	return n
 }
 
+// BareNeedsConfig reports whether a chain entry of a plugin that cannot work without options comes
+// without a usable config (startup must then fail with an error — or work — but never panic).
+func BareNeedsConfig(m *Model) bool {
+	if m.Plugins.Mode != Enabled {
+		return false
+	}
+	for _, p := range m.Plugins.Chain {
+		if p.Bare != "" && (needsConfig(p.Name) || p.Name == "headers") {
+			return true
+		}
+	}
+	return false
+}
+
+// HasBare reports whether any chain entry comes without a usable config.
+func HasBare(m *Model) bool {
+	if m.Plugins.Mode != Enabled {
+		return false
+	}
+	for _, p := range m.Plugins.Chain {
+		if p.Bare != "" {
+			return true
+		}
+	}
+	return false
+}
+
 // TypedPluginOption reports whether a plugin option with a YAML-typed number is present.
 func TypedPluginOption(m *Model) bool {
 	if m.Plugins.Mode != Enabled {
 		return false
 	}
 	for _, p := range m.Plugins.Chain {
-		if p.Typ != "" {
+		if p.Typ != "" && p.Bare == "" {
 			return true
 		}
 	}
